@@ -329,6 +329,39 @@ def _run(ctx):
             if abs(gotv - want) > abs(want) * Decimal("1e-9"):
                 ctx.violation("C18:quantify:wrong-magnitude", f"({lv.magnitude} {fname}[{rname}]).quantify() {label} gives {got.magnitude!r}, the definition gives {core.sf(want)!r}",
                               {"family": fname, "reference": rname, "when": label})
+    # ---- a program registers a root-power dimension of its own (vibration: acceleration levels in dB re 1 um/s^2 count 20 dB
+    # per decade) by adding to the public set measured.ROOT_POWER_DIMENSIONS - after units with such a reference exist
+    state["expect"] = None
+    if hasattr(m, "ROOT_POWER_DIMENSIONS") and hasattr(m, "Acceleration"):
+        accel = m.Unit._by_name["meter"] / m.Unit._by_name["second"] ** 2
+        for k_ in range(4 if ctx.tier == "quick" else 100):
+            with lib():
+                ref_old = m.Quantity((k_ + 1 + 10 * ctx.shard) * 1e-6, accel)
+                lu_old = m.Decibel[ref_old]
+                q = m.Quantity(rng.choice([9.80665, 0.5, 120.0]), accel)
+                ratio = D(q.magnitude) / D(ref_old.magnitude)
+                phases = []
+                try:
+                    phases.append(("before the dimension is registered", 1, lu_old.level(q).magnitude, lu_old))
+                    m.ROOT_POWER_DIMENSIONS.add(m.Acceleration)
+                    lu_new = m.Decibel[m.Quantity(ref_old.magnitude * 1000, accel)]
+                    phases.append(("after it is registered, on the unit that existed before", 2, lu_old.level(q).magnitude, lu_old))
+                    phases.append(("after it is registered, asked for again by Decibel[reference]", 2, m.Decibel[ref_old].level(q).magnitude, lu_old))
+                    phases.append(("after it is registered, on a unit created afterwards", 2, lu_new.level(q).magnitude + 60, lu_old))
+                    back = (phases[1][2] * lu_old).quantify()
+                finally:
+                    m.ROOT_POWER_DIMENSIONS.discard(m.Acceleration)
+                phases.append(("after the registration was withdrawn", 1, lu_old.level(q).magnitude, lu_old))
+            for label, kk, got, _ in phases:
+                want = Decimal(10 * kk) * (ratio.ln() / Decimal(10).ln())
+                ctx.count("evaluations")
+                ctx.count("levels_around_a_run_time_root_power_registration")
+                ctx.distinct(("root-power-registration", label), True)
+                if abs(D(got) - want) > abs(want) * Decimal("1e-9") + Decimal("1e-9"):
+                    ctx.violation("C18:level:wrong-magnitude", f"({q}).level(dB re {ref_old}) {label}: {got!r}, the definition with k = {kk} gives {core.sf(want)!r}",
+                                  {"when": label, "k": kk})
+            if abs(D(back.magnitude) - D(q.magnitude)) > abs(D(q.magnitude)) * Decimal("1e-9"):
+                ctx.violation("C18:round-trip:quantity-level-quantity", f"{q} -> level -> {back!r} on a unit whose dimension was registered as root-power after it was created", {})
     ctx.require("postconditions/level", 200)
     ctx.require("postconditions/quantify", 200)
     ctx.require("monotone_chains", 50)
